@@ -14,6 +14,7 @@ import (
 	paramproposal "github.com/cosmos/cosmos-sdk/x/params/types/proposal"
 
 	rvesting "github.com/teleport-network/teleport/x/rvesting/module"
+	rvestingmodule "github.com/teleport-network/teleport/x/rvesting/module"
 	rvestingtypes "github.com/teleport-network/teleport/x/rvesting/types"
 	bsctypes "github.com/teleport-network/teleport/x/xibc/clients/light-clients/bsc/types"
 	ethtypes "github.com/teleport-network/teleport/x/xibc/clients/light-clients/eth/types"
@@ -23,7 +24,6 @@ import (
 	clienttypes "github.com/teleport-network/teleport/x/xibc/core/client/types"
 	commitmenttypes "github.com/teleport-network/teleport/x/xibc/core/commitment/types"
 	xibcmodule "github.com/teleport-network/teleport/x/xibc/module"
-	rvestingmodule "github.com/teleport-network/teleport/x/rvesting/module"
 
 	"verif/harness/kf"
 	"verif/harness/kit"
